@@ -6,7 +6,10 @@ import (
 	"go/constant"
 	"go/token"
 	"go/types"
+	"sort"
 	"strings"
+
+	"golang.org/x/tools/go/ssa"
 )
 
 // ---------------------------------------------------------------------------
@@ -404,6 +407,159 @@ func ruleJSONNumbers(c *Ctx) {
 	p := c.P
 	pk := p.pkg("plenccodec")
 	n := 0
+	// J.float / J.nonfinite: the float methods and the unexported helpers they call
+	floatFns := map[*ssa.Function]string{}
+	for _, m := range []string{"Float64", "Float32"} {
+		root := p.ssaFunc("plenccodec.JSONOutput." + m)
+		if root == nil {
+			c.Oblige("J.float", false, token.NoPos, "plenccodec.JSONOutput."+m, "function", "not found", nil)
+			continue
+		}
+		seen := map[*ssa.Function]bool{}
+		var visit func(f *ssa.Function, depth int)
+		visit = func(f *ssa.Function, depth int) {
+			if seen[f] || depth > 3 || len(f.Blocks) == 0 {
+				return
+			}
+			seen[f] = true
+			if _, ok := floatFns[f]; !ok {
+				floatFns[f] = m
+			}
+			for _, b := range f.Blocks {
+				for _, in := range b.Instrs {
+					if call, ok := in.(*ssa.Call); ok {
+						if cal := call.Common().StaticCallee(); cal != nil && cal.Pkg != nil && cal.Pkg.Pkg == pk.Types {
+							switch cal.Name() {
+							case "prefix", "punctuate":
+							default:
+								visit(cal, depth+1)
+							}
+						}
+					}
+				}
+			}
+		}
+		visit(root, 0)
+		reach := 0
+		for f := range seen {
+			for _, b := range f.Blocks {
+				for _, in := range b.Instrs {
+					if call, ok := in.(*ssa.Call); ok {
+						if cal := call.Common().StaticCallee(); cal != nil && (cal.String() == "strconv.AppendFloat" || cal.String() == "strconv.FormatFloat") {
+							reach++
+						}
+					}
+				}
+			}
+		}
+		c.Oblige("J.float", reach > 0, root.Pos(), ssaFuncName(root), "writes its number with strconv.AppendFloat",
+			"the float methods must format through strconv (shortest round-tripping representation)", nil)
+	}
+	var fns []*ssa.Function
+	for f := range floatFns {
+		fns = append(fns, f)
+	}
+	sort.Slice(fns, func(i, j int) bool { return ssaFuncName(fns[i]) < ssaFuncName(fns[j]) })
+	stripF := func(v ssa.Value) ssa.Value {
+		for {
+			switch x := v.(type) {
+			case *ssa.Convert:
+				v = x.X
+			case *ssa.ChangeType:
+				v = x.X
+			default:
+				return v
+			}
+		}
+	}
+	for _, f := range fns {
+		name := ssaFuncName(f)
+		for _, b := range f.Blocks {
+			for _, in := range b.Instrs {
+				call, ok := in.(*ssa.Call)
+				if !ok {
+					continue
+				}
+				cal := call.Common().StaticCallee()
+				if cal != nil && cal.Pkg != nil && cal.Pkg.Pkg.Path() == "strconv" && cal.Name() != "AppendFloat" && cal.Name() != "FormatFloat" {
+					n++
+					c.Oblige("J.float", false, call.Pos(), name, "strconv."+cal.Name()+" in the float path",
+						"a float is written by strconv.AppendFloat only: formatting it through an integer (or anything else) is wrong outside that type's range - int64(1e19) is not 1e19", nil)
+					continue
+				}
+				if cal == nil || (cal.String() != "strconv.AppendFloat" && cal.String() != "strconv.FormatFloat") {
+					continue
+				}
+				args := call.Common().Args
+				if cal.Name() == "AppendFloat" {
+					args = args[1:]
+				}
+				n++
+				kInt := func(v ssa.Value) (int64, bool) {
+					if k, ok := stripF(v).(*ssa.Const); ok && k.Value != nil && k.Value.Kind() == constant.Int {
+						return k.Int64(), true
+					}
+					return 0, false
+				}
+				fmtb, ok1 := kInt(args[1])
+				prec, ok2 := kInt(args[2])
+				bits, ok3 := kInt(args[3])
+				srcBits := int64(64)
+				if cv, ok := args[0].(*ssa.Convert); ok {
+					if bt, ok := cv.X.Type().Underlying().(*types.Basic); ok && bt.Kind() == types.Float32 {
+						srcBits = 32
+					}
+				}
+				good := ok1 && ok2 && ok3 && (fmtb == 'g' || fmtb == 'e' || fmtb == 'f' || fmtb == 'G' || fmtb == 'E') && prec == -1 && (bits == 64 || (bits == 32 && srcBits == 32))
+				c.Oblige("J.float", good, call.Pos(), name, "strconv."+cal.Name()+" format",
+					fmt.Sprintf("floats must be written with the shortest representation that parses back to the same number: format %c precision %d bit size %d (source %d bits)", rune(fmtb), prec, bits, srcBits), nil)
+				// J.nonfinite: NaN and both infinities are excluded on the way here
+				val := stripF(args[0])
+				nan, pinf, ninf := false, false, false
+				conds, truths := controllingConds(b)
+				for i, cnd := range conds {
+					t := truths[i]
+					for {
+						u, ok := cnd.(*ssa.UnOp)
+						if !ok || u.Op != token.NOT {
+							break
+						}
+						cnd, t = u.X, !t
+					}
+					switch x := cnd.(type) {
+					case *ssa.Call:
+						g := x.Common().StaticCallee()
+						if g == nil || t || len(x.Common().Args) == 0 || stripF(x.Common().Args[0]) != val {
+							continue
+						}
+						switch g.String() {
+						case "math.IsNaN":
+							nan = true
+						case "math.IsInf":
+							if k, ok := kInt(x.Common().Args[1]); ok {
+								if k >= 0 {
+									pinf = true
+								}
+								if k <= 0 {
+									ninf = true
+								}
+							}
+						}
+					case *ssa.BinOp:
+						if stripF(x.X) == val && stripF(x.Y) == val {
+							// v != v is the NaN test
+							if (x.Op == token.NEQ && !t) || (x.Op == token.EQL && t) {
+								nan = true
+							}
+						}
+					}
+				}
+				c.Oblige("J.nonfinite", nan && pinf && ninf, call.Pos(), name, "NaN and the infinities never reach strconv."+cal.Name(),
+					fmt.Sprintf("strconv writes them as NaN, +Inf and -Inf, which are not JSON: the call must be reached only when math.IsNaN and math.IsInf (both signs) of the same value are false (NaN excluded %v, +Inf %v, -Inf %v)", nan, pinf, ninf), nil)
+			}
+		}
+	}
+	c.Floor("J.nonfinite", 1)
 	for obj, decl := range p.FuncDecl {
 		if p.DeclPkg[obj] != pk || decl.Body == nil {
 			continue
@@ -422,20 +578,6 @@ func ruleJSONNumbers(c *Ctx) {
 				return true
 			}
 			switch cal.Name() {
-			case "AppendFloat":
-				n++
-				fmtb, ok1 := constInt(info, call.Args[2])
-				prec, ok2 := constInt(info, call.Args[3])
-				bits, ok3 := constInt(info, call.Args[4])
-				srcBits := int64(64)
-				if conv, ok := ast.Unparen(call.Args[1]).(*ast.CallExpr); ok && len(conv.Args) == 1 {
-					if bt, ok := info.TypeOf(conv.Args[0]).Underlying().(*types.Basic); ok && bt.Kind() == types.Float32 {
-						srcBits = 32
-					}
-				}
-				good := ok1 && ok2 && ok3 && (fmtb == 'g' || fmtb == 'e' || fmtb == 'f' || fmtb == 'G' || fmtb == 'E') && prec == -1 && (bits == 64 || (bits == 32 && srcBits == 32))
-				c.Oblige("J.float", good, call.Pos(), funcName(obj), "strconv.AppendFloat format",
-					fmt.Sprintf("floats must be written with the shortest representation that parses back to the same number: format %c precision %d bit size %d (source %d bits)", rune(fmtb), prec, bits, srcBits), nil)
 			case "AppendInt", "AppendUint":
 				n++
 				base, ok := constInt(info, call.Args[2])
